@@ -1013,12 +1013,22 @@ json.Number("1.7976931348623157e308"), []interface{}{[]interface{}{[]interface{}
 	}
 	keys := append(append([]string{}, identPool...), keywordPool...)
 	sort.Strings(keys)
+	// keys that are almost identifiers, alone and mixed with identifiers
+	tricky := []string{"1", "9x", "0", "00", "1e5", "a1", "A_", "nil", "NULL", "True", "nulls", "x.y", "a-b", "$", "\u00e4", "a b", "",
+		"-", "_", "__", "x\n", "\"", "a:b", "a,b", "{", "/*", "//", "é", "x\u00a0y", "0x1", "true "}
+	for _, k := range tricky {
+		addPrint("keys", map[string]interface{}{k: 1})
+		addPrint("keys", map[string]interface{}{k: []interface{}{}, "a": nil})
+	}
 	for i := 0; i < n/4; i++ {
 		m := map[string]interface{}{}
 		for j := 0; j < 1+g.r.Intn(4); j++ {
 			k := keys[g.r.Intn(len(keys))]
-			if g.r.Intn(5) == 0 {
+			switch g.r.Intn(6) {
+			case 0:
 				k = string(g.strBytes())
+			case 1:
+				k = tricky[g.r.Intn(len(tricky))]
 			}
 			m[k] = g.goValue(1)
 		}
